@@ -17,6 +17,12 @@ def run(ctx):
                 "/proc/self/fd, identity of sys.std*, cwd, warnings.filters, pdb.set_trace, registries; outcomes vs the same build in a fresh process; "
                 "the same sequence replayed in the Lean model; non-trivial = >= 2 builds and some build executed a task; distinct by canonical sequence")
     capture_api.campaign_c15(ctx, ctx.scale(6, 60), workers=12)
+    ctx.extra["oracle_only"] = [
+        "per-task outcomes of consecutive builds (skip / would-be-executed / -k and -m selections / marks on task functions, F30) = outcomes of "
+        "fresh-process builds: compared by oracle_c15 on every sequence; the Lean model takes outcomes as inputs (TaskIO) and proves only that the "
+        "collected task set and the collection verdict are independent of earlier builds (C15_samebuilds_seq, C15_samebuilds_partial)",
+        "a task that closes sys.stdout while captured (sub-project closer): closed stream objects are outside the model",
+    ]
     found = {v["finding"] for v in ctx.violations}
     ctx.extra["f6b_witness_detected"] = "F6b" in found
     ctx.extra["f6c_witness_detected"] = "F6c" in found
